@@ -2,6 +2,6 @@
 SPECIFICATION Spec
 CONSTANTS
   Devs = {}
-  Families = {"A", "B", "C", "D", "E", "F"}
+  Families = {"A", "B", "C", "D", "E", "F", "G", "H"}
   Gen = FALSE
 INVARIANT RuleIsSafe
